@@ -345,6 +345,9 @@ def generic_shrink(plan: dict):
 
 
 def fresh_scratch(scratch: str) -> None:
+    import gc
+    if Sim.current is None:
+        gc.collect()        # between runs only (see seams.install)
     shutil.rmtree(scratch, ignore_errors=True)
     os.makedirs(scratch, exist_ok=True)
 
